@@ -330,23 +330,55 @@ def gen_site(rng, name, stitch_ids, del_id="primary", shared_edge=None):
     return {"id": "adm-" + name, "nodes": nodes, "edges": edges}
 
 
+# Graph ids / node ids / delegation ids that are prefixes and substrings of each other, or contain JSON
+# metacharacters: the model compares ids by equality, so any text-level test in the code shows up.
+ID_SCHEMES = [
+    ["site-1", "site-10", "site-100", "site-1001"],
+    ["a", "ab", "abc", "b"],
+    ["adm-s0", "adm-s1", "adm-s2", "adm-s3"],
+    ["graph", "adm_graph_ids", "ids", "adm"],
+    ['q"1', 'q"1"2', "[x]", '{"y": [x]}'],
+    ["back\\slash", "back", "sl,ash", "é-1"],
+]
+NODE_POOLS = [["st0", "st1", "st2"], ["st1", "st10", "st100"], ["p", "p\"q", "p,q"], ["n", "n1", "n12"]]
+DEL_IDS = ["primary", "prim", "primary-2", 'd"x', "d"]
+
+
 def gen_family(rng, k):
     """k models sharing stitch nodes pairwise (a chain site - network - site ... or a star around one network model);
     sometimes an edge between two shared nodes is present in several models (with differing data)."""
     names = ["s%d" % i for i in range(k)]
-    pool = ["st%d" % i for i in range(rng.randrange(1, 4))]
+    gids = list(rng.choice(ID_SCHEMES))
+    rng.shuffle(gids)
+    pool = rng.choice(NODE_POOLS)[:rng.randrange(1, 4)]
     fam = []
     for i, nm in enumerate(names):
         st = [s for s in pool if rng.random() < 0.75] or [pool[0]]
         se = None
         if len(st) >= 2 and rng.random() < 0.5:
             se = (st[0], st[1], {"Class": "connects", "Name": "x-" + nm if rng.random() < 0.5 else "x"})
-        spec = gen_site(rng, nm, st, del_id=rng.choice(["primary", "d" + nm]), shared_edge=se)
+        spec = gen_site(rng, nm, st, del_id=rng.choice(DEL_IDS + ["d" + nm]), shared_edge=se)
+        spec["id"] = gids[i]
         if rng.random() < 0.15:
             # a shared *non-stitch* element with delegations on both sides (conflict) or on neither
             spec["nodes"].append(["common-x", {"Class": "NetworkNode", "Type": "Server", "Name": "x", "StitchNode": "false"},
                                   None, {"primary": canon_details({"pool_id": "_", "capacities": {"unit": 1}})} if rng.random() < 0.6 else None])
         fam.append(normalise_spec(spec))
+    return fam
+
+
+RAW_NODE_IDS = [["n1", "n2", "n3", "n4", "n5"], ["n", "n1", "n10", "n100", "1"], ["x", 'x"', "x,y", "[x", "x]"]]
+
+
+def gen_raw_family(rng, k):
+    gids = list(rng.choice(ID_SCHEMES))
+    rng.shuffle(gids)
+    ids = rng.choice(RAW_NODE_IDS)
+    fam = []
+    for j in range(k):
+        spec = gen_raw(rng, "r%d" % j, ids)
+        spec["id"] = gids[j]
+        fam.append(spec)
     return fam
 
 
@@ -357,7 +389,7 @@ def gen_raw(rng, name, ids, nmax=5):
     nodes = []
     for nid in chosen:
         r = rng.random()
-        cd = {rng.choice(["p", "q"]): canon_details({"pool_id": "_", "capacities": {"unit": rng.randrange(1, 3)}})} if r < 0.35 else None
+        cd = {rng.choice(["p", "q", "pq"]): canon_details({"pool_id": "_", "capacities": {"unit": rng.randrange(1, 3)}})} if r < 0.35 else None
         ld = {rng.choice(["p", "q"]): canon_details({"pool_id": "_", "labels": {"vlan_range": "1-%d" % rng.randrange(2, 4)}})} if rng.random() < 0.2 else None
         nodes.append([nid, {"Class": rng.choice(["NetworkNode", "ConnectionPoint"]), "Name": rng.choice([nid, name]),
                             "StitchNode": rng.choice(["true", "false"])}, ld, cd])
